@@ -721,8 +721,10 @@ class HttpRequestParser(HttpParser[RawRequestMessage]):
                 if url.absolute:
                     # yarl evaluates host and port lazily; a target such as
                     # "http://a:b/" would only fail later, in BaseRequest().
-                    url.host
                     url.port
+                    if not url.host:
+                        # https://www.rfc-editor.org/rfc/rfc9110#section-4.2.1-4
+                        raise ValueError("empty host")
             except ValueError:
                 raise InvalidURLError(
                     path.encode(errors="surrogateescape").decode("latin1")
